@@ -32,6 +32,7 @@ func ReplayViolation(v *explore.Violation) (bool, string) {
 	if v.Property == "C06" && v.Signature == "cycle" {
 		return replayCycle(&cfg, ops)
 	}
+	other := ""
 	for _, mode := range []string{"replay", "clone"} {
 		rep := explore.NewReport(v.Property, "replay")
 		run := &Run{Cfg: &cfg, Rep: rep, Vis: mk(), Property: v.Property, Mode: mode}
@@ -42,6 +43,14 @@ func ReplayViolation(v *explore.Violation) (bool, string) {
 			}
 			return true, "reproduced only when the game is rebuilt from its state before every call (the table backend's mode of use)"
 		}
+		if fv := rep.FirstViolation(); fv != nil && other == "" && mode == "replay" {
+			other = fv.Signature + ": " + fv.Message
+		}
+	}
+	if other != "" {
+		// the same oracle objects to the same history, but names another clause first (typical when state
+		// leaks between game objects: what exactly gets overwritten depends on which objects were alive)
+		return true, "the recorded history violates the property on every replay, reported there as " + other
 	}
 	return false, "oracle silent along the recorded history"
 }
@@ -96,7 +105,11 @@ func labels(ops []Op) []string {
 // goTest renders a plain Go test that replays the history without the explorer.
 func goTest(c *Config, hist []string) string {
 	var b strings.Builder
-	fmt.Fprintf(&b, "func TestReplay(t *testing.T) {\n\topts := pokerface.NewStardardGameOptions()\n")
+	fmt.Fprintf(&b, "func TestReplay(t *testing.T) {\n")
+	if c.Scene != nil {
+		fmt.Fprintf(&b, "\t// SCENE (not rendered below, see hand/scene.go): %s\n", c.Scene.describe())
+	}
+	fmt.Fprintf(&b, "\topts := pokerface.NewStardardGameOptions()\n")
 	fmt.Fprintf(&b, "\topts.Ante = %d\n\topts.Blind = pokerface.BlindSetting{Dealer: %d, SB: %d, BB: %d}\n\topts.Limit = %q\n", c.Ante, c.DealerBlind, c.SB, c.BB, c.Limit)
 	fmt.Fprintf(&b, "\topts.HoleCardsCount, opts.RequiredHoleCardsCount = %d, %d\n", c.Hole, c.Required)
 	if c.Table == "short" {
